@@ -53,25 +53,19 @@ def main():
                 meta["baseline_suite_passes"] = t.returncode == 0
                 e = dict(env)
                 e["VERIF_REPO"] = wt
-                e["VERIF_KEEP_REPLAYS"] = "1"
+                out = "/tmp/out-benign-%s-%d" % (name, os.getpid())
+                e["VERIF_OUT"] = out  # evidence and replays of side runs stay out of /verif
                 for c in checks:
-                    evf = os.path.join(VERIF, "evidence", c + ".json")
-                    saved = open(evf).read() if os.path.exists(evf) else None
-                    rp = os.path.join(VERIF, "replays", c)
-                    before = set(os.listdir(rp)) if os.path.isdir(rp) else set()
                     t0 = time.time()
                     r = subprocess.run([os.path.join(VERIF, "check"), c, "quick"], cwd=VERIF, env=e, capture_output=True, text=True)
                     res = {"exit": r.returncode, "wall_s": round(time.time() - t0, 1)}
                     if r.returncode == 1:
-                        res["messages"] = sorted(set(re.findall(r"(VIOL\[[^\]]+\][^\n]{0,300})", r.stderr)))[:3]
+                        res["messages"] = sorted(set(re.findall(r"(VIOL\[[^\]]+\][^\n]{0,300})", r.stderr + r.stdout)))[:3]
+                        res["tail"] = (r.stdout + r.stderr)[-1500:]
                     elif r.returncode != 0:
                         res["tail"] = (r.stdout + r.stderr)[-600:]
                     meta["checks"][c] = res
-                    if saved is not None:
-                        open(evf, "w").write(saved)
-                    if os.path.isdir(rp):
-                        for x in set(os.listdir(rp)) - before:
-                            os.remove(os.path.join(rp, x))
+                shutil.rmtree(out, ignore_errors=True)
         finally:
             subprocess.run(["git", "-C", REPO, "worktree", "remove", "--force", wt])
             shutil.rmtree(wt, ignore_errors=True)
